@@ -158,6 +158,11 @@ def gen(ctx):
         yield dict(kind="walk", k=k, r=r, q=rng.randrange(k), sq=int(rng.random() < 0.5), iso=int(rng.random() < 0.5),
                    lam=rng.randint(0, 64), target=rng.choice(["current", 0, 64, rng.randint(0, 64), rng.randint(0, 64), "attainable", "attainable"]),
                    seed=rng.randrange(10 ** 6))
+    for (k, r) in ([(2, 3), (4, 2)] if ctx.tier == "quick" else [(2, 3), (2, 4), (3, 2), (4, 2), (5, 2)]):
+        for sq in (0, 1):
+            yield dict(kind="rrt", k=k, r=r, q=rng.randrange(k), sq=sq, iso=1 - sq, lam=rng.randint(0, 64), seed=rng.randrange(10 ** 6))
+            yield dict(kind="walk", k=k, r=r, q=rng.randrange(k), sq=sq, iso=1 - sq, lam=rng.randint(0, 64),
+                       target=rng.choice([0, 64, "attainable"]), seed=rng.randrange(10 ** 6))
     for _ in range(ctx.n(100, 1000)):
         k = rng.randint(2, 5)
         n = rng.choice([1, 3])
